@@ -168,5 +168,21 @@ fn vp_native_decoding_and_damage_body() {
         let (got, clean) = read_all(w, 4096); cases += 1; crate::verif_native_watchdog::progress();
         assert!(clean && got == p2, "transfer coding declared over two field lines {:?}: clean {} got {} bytes", te, clean, got.len());
     }
+    // coded streams larger than the chunked reader's 64 KiB pieces, carried in chunks of and around that size: the payload comes
+    // out exactly whatever the chunk sizes are
+    {
+        let mut x: u64 = 0x9e3779b97f4a7c15;
+        let big: Vec<u8> = (0..200_000usize).map(|_| { x ^= x << 13; x ^= x >> 7; x ^= x << 17; (x >> 24) as u8 }).collect();   // incompressible
+        for (hdr, enc) in [("Content-Encoding: gzip\r\n", gz(&big, 0)), ("Content-Encoding: gzip\r\n", gz(&big, 6)), ("Content-Encoding: deflate\r\n", deflate(&big, 0)), ("Content-Encoding: deflate\r\n", deflate(&big, 9))] {
+            for first in [65535usize, 65536, 65537, 131072, 1, 8192] { for rest in [65536usize, 70000, 4096] { for size in [4096usize, 65536, 300000] {
+                let mut w = b"HTTP/1.1 200 OK\r\n".to_vec(); w.extend_from_slice(hdr.as_bytes()); w.extend_from_slice(b"Transfer-Encoding: chunked\r\n\r\n");
+                let (head, tail) = enc.split_at(first.min(enc.len()));
+                for c in std::iter::once(head).chain(tail.chunks(rest)) { if c.is_empty() { continue; } w.extend_from_slice(format!("{:x}\r\n", c.len()).as_bytes()); w.extend_from_slice(c); w.extend_from_slice(b"\r\n"); }
+                w.extend_from_slice(b"0\r\n\r\n");
+                let (got, clean) = read_all(w, size); cases += 1; crate::verif_native_watchdog::progress();
+                assert!(clean && got == big, "{:?} stream of {} bytes in chunks of {} then {} bytes, read with {}-byte buffers: clean {} got {} of {} bytes", hdr.trim(), enc.len(), first, rest, size, clean, got.len(), big.len());
+            } } }
+        }
+    }
     println!("VP-NATIVE decoding_and_damage cases={}", cases);
 }
